@@ -2,6 +2,7 @@ package rules
 
 import (
 	"go/ast"
+	"go/constant"
 	"go/token"
 	"go/types"
 
@@ -10,7 +11,7 @@ import (
 
 func init() {
 	register("C09", "other", "T2/T3 Dominates (seal sequence), T4 GuardedBy (nothing of the old epoch after sealing), T16b SiblingAgreement (seal path vs Reset), linear normaliser",
-		"Decides the seal sequence: when the block callback returns validators, sealEpoch persists an epoch state with the epoch incremented by exactly one and exactly those validators, then drops the old epoch database, opens the new one (purging the cached roots first) and tells the index; afterwards the election is reset with the new validators at the first frame and the last decided frame FirstFrame-1 is persisted; once a call reports 'sealed', no further root is processed and no further frame is applied in handleElection or bootstrapElection; and Orderer.Reset performs the same set of effects (epoch state and decided state persisted, epoch database dropped and reopened, election reset at the first frame with the same validators) as the seal path. That the new epoch's blocks are then identical for both instances is a runtime fact and is not decided.",
+		"Decides the seal sequence: when the block callback returns validators, sealEpoch persists an epoch state with the epoch incremented by exactly one and exactly those validators, then drops the old epoch database, opens the new one (purging the cached roots first) and tells the index; afterwards the election is reset with the new validators at the first frame and the last decided frame FirstFrame-1 is persisted; once a call reports 'sealed', no further root is processed and no further frame is applied in handleElection or bootstrapElection; and Orderer.Reset performs the same set of effects (epoch state and decided state persisted, epoch database dropped and reopened, election reset at the first frame with the same validators) as the seal path; and the vector engine's Reset (which the epoch-database callback runs on both paths) drops its cached branch info on every path, directly or in a method it always calls, so the new epoch is indexed from the new epoch's database only. That the new epoch's blocks are then identical for both instances is a runtime fact and is not decided.",
 		[]string{"the block callback's validators are taken as they are", "epoch database producer returns an empty database for a new epoch"},
 		runC09)
 }
@@ -63,7 +64,8 @@ func runC09(c *core.Ctx) {
 		rs := se.CallsTo("abft.Orderer.resetEpochStore")
 		okRS := len(rs) == 1 && okSet
 		if okRS {
-			_, pth := fieldPath(se, rs[0].Call.Args[0])
+			// a local holding the incremented epoch stands for the field when nothing stores to it afterwards
+			_, pth := fieldPath(se, c09snapshot(se, rs[0].Call.Args[0]))
 			okRS = len(pth) == 1 && pth[0] == "abft.EpochState.Epoch"
 			d, _ := se.MustPassBefore(core.Points(sets), rs[0].Pt)
 			okRS = okRS && d
@@ -73,7 +75,8 @@ func runC09(c *core.Ctx) {
 		re := c.Fn("abft.Orderer.resetEpochStore")
 		drop := re.CallsTo("abft.Store.dropEpochDB")
 		open := re.CallsTo("abft.Store.openEpochDB")
-		cb := re.CallsTo("abft.OrdererCallbacks.EpochDBLoaded")
+		// the callback may be invoked directly or through a local that holds the (unchanged) field value
+		cb := c09funcFieldCalls(re, "abft.OrdererCallbacks.EpochDBLoaded")
 		okSeq := len(drop) == 1 && len(open) == 1 && len(cb) == 1
 		if okSeq {
 			okSeq = afterSuccess(re, drop[0], open[0].Pt) && afterSuccess(re, open[0], cb[0].Pt) &&
@@ -82,7 +85,7 @@ func runC09(c *core.Ctx) {
 		c.Check(okSeq, "old epoch database dropped, new one opened, index notified — in that order", "T2+T4", re.Pos(), "dropEpochDB() ok -> openEpochDB(newEpoch) ok -> EpochDBLoaded(newEpoch)", "the epoch store switch is out of order or uses a different epoch")
 		// every nil return passes the callback (unless nil)
 		if len(cb) == 1 {
-			_, miss := core.PathQuery{F: re, From: re.Entry(), Avoid: core.PointSet(cb[0].Pt), AvoidEdge: re.GuardEdges(fieldNilFact(re, "abft.OrdererCallbacks.EpochDBLoaded", true)), Target: func(pt core.Point) bool {
+			_, miss := core.PathQuery{F: re, From: re.Entry(), Avoid: core.PointSet(cb[0].Pt), AvoidEdge: re.GuardEdges(c09fieldNilFact(re, "abft.OrdererCallbacks.EpochDBLoaded", true)), Target: func(pt core.Point) bool {
 				r, ok := pt.Node().(*ast.ReturnStmt)
 				return ok && len(r.Results) == 1 && core.IsNil(re.Info(), r.Results[0])
 			}}.Find()
@@ -112,13 +115,19 @@ func runC09(c *core.Ctx) {
 		// onFrameDecided: seal branch
 		od := c.Fn("abft.Orderer.onFrameDecided")
 		var newV *types.Var
+		applies := map[ast.Expr]bool{}
+		for _, cs := range c09funcFieldCalls(od, "abft.OrdererCallbacks.ApplyAtropos") {
+			applies[cs.Call] = true
+		}
 		for _, a := range assignments(od) {
-			if a.RHS != nil && isCallTo(od, a.RHS, "abft.OrdererCallbacks.ApplyAtropos") != nil {
+			if a.RHS != nil && applies[ast.Unparen(a.RHS)] {
 				newV = varOf(od, a.LHS)
 			}
 		}
 		c.Need(newV != nil, "newValidators = ApplyAtropos(...)")
-		sealed := varNilFact(od, newV, false)
+		// "the callback returned validators", whether tested directly or through a boolean local
+		sealed := c09lift(od, varNilFact(od, newV, false))
+		notSealed := c09lift(od, varNilFact(od, newV, true))
 		seals := od.CallsTo("abft.Orderer.sealEpoch")
 		okS := len(seals) == 1 && varOf(od, seals[0].Call.Args[0]) == newV
 		if okS {
@@ -141,16 +150,28 @@ func runC09(c *core.Ctx) {
 		}
 		c.Check(okR, "election restarts at the first frame with the new validators after sealing", "T2+T4", od.Pos(), "election.Reset(newValidators, FirstFrame) after sealEpoch succeeded", "after sealing the election is not reset to (new validators, first frame)")
 		// the return value reports sealing
-		okRet := false
+		// every successful return yields "validators were returned": the comparison itself (possibly held
+		// in a boolean local), or a constant that agrees with the branch the return lies on
+		okRet, nRet := true, 0
 		for _, rp := range od.ReturnPoints() {
 			r := rp.Node().(*ast.ReturnStmt)
-			if len(r.Results) == 2 && core.IsNil(od.Info(), r.Results[1]) {
-				if cm, k := core.NormCmp(core.Fact{Expr: r.Results[0], Truth: true}); k && cm.R != nil && cm.Op == token.NEQ && varOf(od, cm.L) == newV && core.IsNil(od.Info(), cm.R) {
-					okRet = true
-				}
+			if len(r.Results) != 2 || !core.IsNil(od.Info(), r.Results[1]) {
+				continue
 			}
+			nRet++
+			one := false
+			if cv, isC := core.ConstVal(od.Info(), r.Results[0]); isC && cv.Kind() == constant.Bool {
+				if constant.BoolVal(cv) {
+					one, _ = od.GuardedBy(rp, sealed)
+				} else {
+					one, _ = od.GuardedBy(rp, notSealed)
+				}
+			} else {
+				one = sealed(core.Fact{Expr: r.Results[0], Truth: true})
+			}
+			okRet = okRet && one
 		}
-		c.Check(okRet, "onFrameDecided reports whether it sealed", "provenance", od.Pos(), "returns newValidators != nil", "callers cannot tell that the epoch was sealed")
+		c.Check(okRet && nRet >= 1, "onFrameDecided reports whether it sealed", "provenance", od.Pos(), "every successful return yields newValidators != nil", "callers cannot tell that the epoch was sealed")
 		frameBookkeeping(c)
 	})
 
@@ -172,9 +193,16 @@ func runC09(c *core.Ctx) {
 				return true
 			})
 			c.Check(len(sealedVars) >= 1, short(name)+"|sealed result is captured", "provenance", f.Pos(), "the sealed flag of onFrameDecided/bootstrapElection is kept", "the sealed result is discarded")
-			isSealed := func(ft core.Fact) bool {
-				return ft.Truth && sealedVars[varOf(f, ft.Expr)]
-			}
+			// the flag is true on this edge: `if sealed`, `if sealed == true`, `switch { case sealed: }`, or a
+			// boolean local computed from it
+			isSealed := c09lift(f, func(ft core.Fact) bool {
+				for v := range sealedVars {
+					if c33boolFact(f, v, true)(ft) {
+						return true
+					}
+				}
+				return false
+			})
 			edges := edgesWithFact(f, isSealed)
 			c.ExpectAtLeast("sealed tests in "+short(name), len(edges), 1)
 			// every call that yields a sealed flag is followed by a test of it (before any further election work)
@@ -263,4 +291,6 @@ func runC09(c *core.Ctx) {
 		setsD := len(g.CallsTo("abft.Store.SetLastDecidedState")) == 1
 		c.Check(okE && okD && setsE && setsD, "applyGenesis persists the epoch state and 'no decided frames'", "T16b SiblingAgreement", g.Pos(), "EpochState{epoch, validators} and LastDecidedFrame = FirstFrame-1 are stored through the setters", "a reset instance does not start from (epoch, validators, no decided frames)")
 	})
+
+	c09Index(c)
 }
